@@ -52,10 +52,12 @@ type cluster struct {
 	net    *meshsender.Net
 	ssids  []string
 	byPeer map[uint64]string
+	byConn map[uint64]string // connection id (of any incarnation of a broker's client) -> broker
+	lic    int
 }
 
 func newCluster(names, ssids []string, lic int) (*cluster, error) {
-	c := &cluster{nodes: map[string]*node{}, names: names, net: meshsender.NewNet(), ssids: ssids, byPeer: map[uint64]string{}}
+	c := &cluster{nodes: map[string]*node{}, names: names, net: meshsender.NewNet(), ssids: ssids, byPeer: map[uint64]string{}, byConn: map[uint64]string{}, lic: lic}
 	for i, n := range names {
 		b, err := bk.New(bk.Opts{LicenseVer: lic, Storage: "noop", NodeName: fmt.Sprintf("00:00:00:00:0c:%02x", i+1)})
 		if err != nil {
@@ -82,6 +84,7 @@ func newCluster(names, ssids []string, lic int) (*cluster, error) {
 		}
 		x.key = k
 		x.connID = uint64(x.cl.Srv.LocalID())
+		c.byConn[x.connID] = n
 	}
 	// the CONNECT of each client was announced to the cluster: flush those payloads so that the schedule starts clean
 	c.drain()
@@ -92,6 +95,35 @@ func (c *cluster) close() {
 	for _, x := range c.nodes {
 		x.b.Close()
 	}
+}
+
+// restart replaces broker n by a new one under the same node name (new process: empty replica, new client connection
+// that never subscribes); all its mesh connections are broken.
+func (c *cluster) restart(n string) error {
+	old := c.nodes[n]
+	old.b.Close()
+	b, err := bk.New(bk.Opts{LicenseVer: c.lic, Storage: "noop", NodeName: old.b.Opts.NodeName})
+	if err != nil {
+		return err
+	}
+	sw := b.Svc.VerifCluster()
+	if mesh.PeerName(sw.ID()) != old.peer {
+		return fmt.Errorf("restarted broker has another peer name")
+	}
+	nd := c.net.Replace(old.peer)
+	sw.VerifSetGossip(nd)
+	x := &node{name: n, b: b, nd: nd, peer: old.peer}
+	x.cl = b.Attach()
+	if _, err := x.cl.Barrier(8 * time.Second); err != nil {
+		return err
+	}
+	if x.key, err = b.Key("#/", "rw", time.Unix(0, 0)); err != nil {
+		return err
+	}
+	x.connID = uint64(x.cl.Srv.LocalID())
+	c.byConn[x.connID] = n
+	c.nodes[n] = x
+	return nil
 }
 
 // drain picks and delivers until nothing is queued or in flight.
@@ -198,9 +230,8 @@ func (c *cluster) observe() (map[string][][]string, map[string][][]string) {
 // abstractPayload decodes wire bytes and reports, per model key, whether add / remove times are present and how it reads.
 func (c *cluster) abstractPayload(buf []byte) map[string]map[string]bool {
 	out := map[string]map[string]bool{}
-	byConn := map[uint64]string{}
+	byConn := c.byConn
 	for _, o := range c.names {
-		byConn[c.nodes[o].connID] = o
 		for _, q := range c.names {
 			for _, s := range c.ssids {
 				out[o+"."+q+"/"+s] = map[string]bool{"a": false, "d": false, "on": false}
@@ -283,6 +314,11 @@ func Replay(walk []json.RawMessage, names, ssids []string, label string, lic int
 			} else {
 				c.net.SetDown(x.peer, y.peer, false, x.b.Svc.VerifCluster().Gossip(), y.b.Svc.VerifCluster().Gossip())
 			}
+		case "restart":
+			if err := c.restart(a.B); err != nil {
+				return nil, fmt.Errorf("restart: %v", err)
+			}
+			x = c.nodes[a.B]
 		case "gc":
 			ev["to"] = a.To
 			x.b.Svc.VerifCluster().VerifPeerOffline(c.nodes[a.To].peer)
@@ -417,20 +453,24 @@ func Explore(c *core.Ctx) int64 {
 		names           []string
 		ops, per, n, dp int
 		faults          int
+		restarts        bool // broker restarts are among the faults
 		marked          bool // 4 brokers: simulation only, keeping the behaviours with different coalesced payloads on two links of one broker
 	}
-	confs := []conf{{[]string{"b1", "b2"}, 3, 1, 25, 40, 0, false}, {[]string{"b1", "b2", "b3"}, 3, 1, 25, 70, 0, false}, {[]string{"b1", "b2"}, 4, 1, 30, 60, 1, false}, {[]string{"b1", "b2", "b3", "b4"}, 4, 3, 30, 110, 0, true}}
+	confs := []conf{{[]string{"b1", "b2"}, 3, 1, 25, 40, 0, false, false}, {[]string{"b1", "b2", "b3"}, 3, 1, 25, 70, 0, false, false}, {[]string{"b1", "b2"}, 4, 1, 30, 60, 1, false, false}, {[]string{"b1", "b2"}, 4, 1, 20, 60, 1, true, false}, {[]string{"b1", "b2", "b3", "b4"}, 4, 3, 30, 110, 0, false, true}}
 	if !c.Quick() {
-		confs = []conf{{[]string{"b1", "b2"}, 4, 2, 300, 60, 0, false}, {[]string{"b1", "b2", "b3"}, 4, 1, 400, 90, 0, false}, {[]string{"b1", "b2"}, 4, 1, 300, 70, 2, false}, {[]string{"b1", "b2", "b3"}, 3, 1, 200, 100, 1, false}, {[]string{"b1", "b2", "b3", "b4"}, 5, 4, 400, 140, 0, true}}
+		confs = []conf{{[]string{"b1", "b2"}, 4, 2, 300, 60, 0, false, false}, {[]string{"b1", "b2", "b3"}, 4, 1, 400, 90, 0, false, false}, {[]string{"b1", "b2"}, 4, 1, 300, 70, 2, false, false}, {[]string{"b1", "b2", "b3"}, 3, 1, 200, 100, 1, false, false}, {[]string{"b1", "b2"}, 4, 1, 200, 70, 2, true, false}, {[]string{"b1", "b2", "b3"}, 3, 1, 150, 100, 1, true, false}, {[]string{"b1", "b2", "b3", "b4"}, 5, 4, 400, 140, 0, false, true}}
 	}
 	var nontrivial int64
 	for ci, k := range confs {
+		if k.restarts && c.ID != "C05" {
+			continue // restarts add nothing to what a payload carries (C13)
+		}
 		mc := func(gen string, ops, per int, view bool, asIs bool) string {
 			dev := "FALSE"
 			if asIs {
 				dev = "TRUE"
 			}
-			s := fmt.Sprintf("CONSTANTS\n Brokers = %s\n Ssids = %s\n GcAsCode = %s\n MaxOps = %d\n MaxPeriodic = %d\n MaxFaults = %d\n Gen = %q\nINIT MCInit\nNEXT MCNext\n", set(k.names), set(ssids), dev, ops, per, k.faults, gen)
+			s := fmt.Sprintf("CONSTANTS\n Brokers = %s\n Ssids = %s\n GcAsCode = %s\n MaxOps = %d\n MaxPeriodic = %d\n MaxFaults = %d\n Restarts = %s\n Gen = %q\nINIT MCInit\nNEXT MCNext\n", set(k.names), set(ssids), dev, ops, per, k.faults, strings.ToUpper(fmt.Sprint(k.restarts)), gen)
 			if asIs {
 				s += "INVARIANTS Dump\n"
 			} else {
@@ -501,7 +541,7 @@ func Explore(c *core.Ctx) int64 {
 		}
 		rej := c.ValidateTraces(traces, core.ValidateOpts{Module: "Gossip_Trace", Cfg: tcfg(false), ChunkSize: 1500})
 		// how many coalescing steps / garbage collections of a member happened up to (and including) event idx of a trace
-		history := func(t *core.Trace, idx int) (co int, gc bool) {
+		history := func(t *core.Trace, idx int) (co int, gc bool, restarted bool) {
 			for i := 0; i <= idx && i < len(t.Events); i++ {
 				var e struct {
 					E         string `json:"e"`
@@ -510,6 +550,9 @@ func Explore(c *core.Ctx) int64 {
 				json.Unmarshal(t.Events[i], &e)
 				if e.E == "gc" {
 					gc = true
+				}
+				if e.E == "restart" {
+					restarted = true
 				}
 				if e.E != "reset" {
 					co = e.Coalesced
@@ -523,10 +566,10 @@ func Explore(c *core.Ctx) int64 {
 		var again []*core.Trace
 		var first []core.Rejection
 		for _, rj := range rej {
-			_, gc := history(rj.Trace, rj.Index)
+			_, gc, rs := history(rj.Trace, rj.Index)
 			// (C13 is about what a payload carries, not about routing: for it the model of the code is the reference after a
-			// garbage collection, and no finding is involved)
-			if gc && (c.KnownQuiet("gc_peer_return") || c.ID != "C05") {
+			// garbage collection or a restart, and no finding is involved)
+			if (gc && (c.KnownQuiet("gc_peer_return") || c.ID != "C05")) || (rs && (c.KnownQuiet("restart_stale_routes") || c.ID != "C05")) {
 				again = append(again, rj.Trace)
 				continue
 			}
@@ -541,8 +584,15 @@ func Explore(c *core.Ctx) int64 {
 			}
 			for _, t := range again {
 				if !bad[t.Label] && c.ID == "C05" {
-					c.Known("gc_peer_return")
-					c.Add("schedules_explained_by_gc_peer_return", 1)
+					_, gc, rs := history(t, len(t.Events))
+					if gc {
+						c.Known("gc_peer_return")
+						c.Add("schedules_explained_by_gc_peer_return", 1)
+					}
+					if rs {
+						c.Known("restart_stale_routes")
+						c.Add("schedules_explained_by_restart_stale_routes", 1)
+					}
 				}
 			}
 			c.Add("schedules_revalidated_against_the_gc_deviation", int64(len(again)))
@@ -554,7 +604,7 @@ func Explore(c *core.Ctx) int64 {
 			rejected[rj.Trace.Label] = true
 			// a listed finding explains a rejection only in a schedule that coalesced payloads in a sender bucket before the
 			// rejected step (the finding is identified by that history, not by the property)
-			co, _ := history(rj.Trace, rj.Index)
+			co, _, _ := history(rj.Trace, rj.Index)
 			if co > 0 && c.Known("merge_returns_delta") {
 				c.Add("schedules_explained_by_merge_returns_delta", 1)
 				continue
